@@ -1845,6 +1845,13 @@ fn extras_probe(rep: &mut Report, focus: &str, seed: u64) {
             let expect = |a: u32| -> u64 {
                 match d.kind {
                     "unit" => 0,
+                    "opt" => {
+                        if a % 3 == 0 {
+                            0
+                        } else {
+                            vhooks::mix(d.fid, (d.digest)(a))
+                        }
+                    }
                     "dup" => vhooks::mix(d.fid, (d.digest)(a)),
                     _ => {
                         let mut v = 0u64;
